@@ -69,18 +69,26 @@ def pool_case(front, fam, rng, valid=True):
             v = rng.below(1 << (8 * size))
             plines.append(f"pv {size} {v}")
             entries.append(("v", len(plines) - 1, size, v))
-            widest = max(widest, size)
+            import math
+            widest = widest * size // math.gcd(widest, size)
         elif c < 8:
-            size = rng.choice([1, 2, 4, 8]) if valid else rng.choice([1, 2, 3, 4, 5, 8, 16])
-            plines.append(f"pa {size} {rng.below(256)}")
-            widest = max(widest, size)
+            # explicit alignment inside the pool: any number, also not a power of two (the pool then starts at a multiple of all of them);
+            # the filler is drawn from two values so that neighbouring alignment requests often share it
+            size = rng.choice([1, 2, 4, 8, 3, 6, 12, 2, 4]) if valid else rng.choice([1, 2, 3, 4, 5, 8, 16])
+            plines.append(f"pa {size} {rng.choice([0, 0, 0xCC, rng.below(256)])}")
+            if valid:
+                import math
+                widest = widest * size // math.gcd(widest, size)
+            else:
+                widest = max(widest, size)
         else:
             size = rng.choice([2, 4, 8]) if fam != "a64" else rng.choice([4, 8])
             k = rng.choice(["g", "d", "f"])
             name = {"g": 9, "d": 0, "f": 3}[k]
             plines.append(f"pl {k} {name} {size}")
             entries.append((k, len(plines) - 1, size, name))
-            widest = max(widest, size)
+            import math
+            widest = widest * size // math.gcd(widest, size)
     if valid:
         lines.append(f"al {widest} 0")
     lines.append("off")                    # pool start
